@@ -111,19 +111,21 @@ def main():
     ck = Check("C12")
     if ck.replay:
         body = json.load(open(os.path.join(VERIF, ck.replay) if not os.path.isabs(ck.replay) else ck.replay))
-        run_case(ck, body["case"])
+        ck.guard(run_case, ck, body["case"])
         ck.finish(rule="replay of one recorded case")
     ck.lean_obligations("CvProps.C12", THEOREMS)
     for case in json.load(open(os.path.join(VERIF, "harness", "corpus", "C12.json"))):
-        run_case(ck, case)
+        ck.guard(run_case, ck, case)
         ck.count("corpus")
     for _ in range(60 if not ck.thorough else 2000):
         if ck.enough():
             break
-        run_case(ck, gen_case(ck, 700 if not ck.thorough else 15000))
+        ck.guard(run_case, ck, gen_case(ck, 700 if not ck.thorough else 15000))
     ck.assumptions = ["graphs with a pre-trained model need the network and are outside the offline domain (stated, not claimed)", "hash injective on everything touched"]
     ck.finish(rule="generated definitions (inverse-closed and not) x several queries on ONE graph object (cache) with varying BFS limits x reachable / unreachable start states; judged by Spec distances from the start state and replay with plain integer arithmetic")
 
 
 if __name__ == "__main__":
-    main()
+    from cv.core import run_main
+
+    run_main(main)
